@@ -362,25 +362,8 @@ def symseq_getitem(it, seq, key):
             return SymSeq(cnt, lambda i: seq.at(mk_int(start + as_int_term(i) * sv)), seq.pycls)
         if it.truth(mk_bool(step < 0)):
             raise Unsupported("slice with symbolic negative step")
-        # symbolic positive step: the index map p -> start + p*step is kept behind an uninterpreted function with
-        # the (linear) facts that slice.indices guarantees; the defining equation is recorded as a definition
-        I = z3.Function(fresh_name("idx"), z3.IntSort(), z3.IntSort())
-        p = fresh_int("p")
-        H = it.path.add_hyp
-        H(z3.ForAll([p], z3.Implies(z3.And(p >= 0, p < count), z3.And(I(p) >= start, I(p) < stop, I(p) >= 0, I(p) < n)),
-                    patterns=[I(p)]))
-        H(z3.ForAll([p], z3.Implies(z3.And(p >= 0, p + 1 < count), I(p) + step <= I(p + 1)), patterns=[I(p + 1)]))
-        H(z3.Implies(count > 0, I(0) == start))
-        it.path.__dict__.setdefault("definitions", []).append(
-            z3.ForAll([p], z3.Implies(z3.And(p >= 0, p < count), I(p) == start + p * step), patterns=[I(p)]))
-        it.path.__dict__.setdefault("index_maps", []).append({"I": I, "start": start, "stop": stop, "step": step, "count": count})
-        def mapped(i):
-            pt = as_int_term(i)
-            it.path.assume(z3.Implies(z3.And(pt >= 0, pt < count),
-                                      z3.And(I(pt) >= start, I(pt) < stop, I(pt) >= 0, I(pt) < n)))
-            return seq.at(mk_int(I(pt)))
-
-        return SymSeq(cnt, mapped, seq.pycls)
+        at = ops.index_map(it, start, stop, step, count, n)
+        return SymSeq(cnt, lambda i: seq.at(mk_int(at(as_int_term(i)))), seq.pycls)
     if isinstance(key, Sym) and key.pyt in (int, bool) or is_concrete_int(key):
         k = as_int_term(key)
         if is_concrete_int(key) and key < 0:
@@ -943,7 +926,7 @@ def _range(it, a, k):
     if any(isinstance(x, Sym) for x in a):
         if len(a) == 1:
             n = as_int_term(a[0])
-            ln = mk_int(z3.If(n > 0, n, 0))
+            ln = mk_int(it.path.pick(n > 0, n, z3.IntVal(0)))
             return SymSeq(ln, lambda i: i if is_concrete_int(i) else mk_int(as_int_term(i)), range, "range")
         raise Unsupported("range with symbolic start/step")
     return NotImplemented
@@ -1039,7 +1022,13 @@ def _minmax(is_min):
             it.path.assume(z3.And(w >= 0, w < n, as_int_term(vw) == m))
             if key is not None:
                 raise Unsupported("min/max with key over symbolic sequence")
-            return Sym(m, int)
+            # instantiate-on-demand: the bound fact for a chosen element index
+            def instance(jt, s=s, keyf=keyf, m=m, n=n):
+                v = keyf(s.at(mk_int(jt)))
+                return z3.Implies(z3.And(jt >= 0, jt < n), (m <= as_int_term(v)) if is_min else (m >= as_int_term(v)))
+
+            it.path.__dict__.setdefault("minmax", {})[m.get_id()] = {"instance": instance, "witness": w, "n": n, "is_min": is_min}
+            return Sym(m, int, tag=("minmax", m.get_id()))
         vals = list(a) if len(a) > 1 else None
         if vals is None:
             try:
@@ -1334,7 +1323,7 @@ def _partition_all(it, a, k):
         if not it.path.entails(c >= 1):
             if not it.truth(mk_bool(c >= 1)):
                 raise Unsupported("partition_all with non-positive size")
-        count = mk_int((L + c - 1) / c)
+        count = mk_int(ops.floordiv_term(L + c - 1, c, it))
 
         def part(kk):
             kt = as_int_term(kk)
@@ -1398,7 +1387,7 @@ def _groupby(it, a, k):
     H(z3.ForAll([g, h], z3.Implies(z3.And(g >= 0, g < h, h < G), K(bnd(g)) < K(bnd(h))),
                 patterns=[z3.MultiPattern(K(bnd(g)), K(bnd(h)))]))
     it.path.__dict__.setdefault("prefix_functions", []).append(bnd)
-    it.path.__dict__.setdefault("groupby_models", []).append({"G": G, "bnd": bnd, "K": K, "L": L})
+    it.path.__dict__.setdefault("groupby_models", []).append({"G": G, "bnd": bnd, "K": K, "L": L, "key_at": key_at})
 
     def key_of_run(gi):
         gt = as_int_term(gi)
